@@ -332,6 +332,46 @@ fn enumerate(tier: Tier, idx: u32, of: u32, cx: &mut Cx) -> CaseResult {
         cx.inner_nontrivial += 1;
     }
     crate::engine::force_remove(&sub);
+
+    // Data of MiB size through the same machinery: (a) eight files of 600 KiB, pairwise
+    // identical, combined into blocks of 2 MiB; (b) three small files, one of 65 MiB + 1, two
+    // more small files, default options. Every block write fails once.
+    let m = crate::probes::plain_meta();
+    let mut a = tree::Tree::empty_root(tree::Meta { mode: 0o755, ..m });
+    for (i, pool) in [2u8, 3, 2, 3, 4, 5, 4, 5].iter().enumerate() {
+        a.0.insert(format!("/b{i}"), tree::Node { kind: Kind::File { pool: *pool, len: 600 << 10 }, meta: m });
+    }
+    let mut b = tree::Tree::empty_root(tree::Meta { mode: 0o755, ..m });
+    for (name, pool, len) in [("a1", 2u8, 100u32), ("a2", 3, 200), ("a3", 4, 300), ("big", 5, (65 << 20) + 1), ("z1", 6, 150), ("z2", 7, 250)] {
+        b.0.insert(format!("/{name}"), tree::Node { kind: Kind::File { pool, len }, meta: m });
+    }
+    for (name, tree, opts, kinds) in [
+        ("big-small-files", a, ops::Opts { block: 2 << 20, ..ops::Opts::defaults() }, EK::ALL.to_vec()),
+        ("small-files-around-65-mib", b, ops::Opts::defaults(), vec![EK::PermissionDenied]),
+    ] {
+        let sc = Scenario { initial: tree, prefix: vec![], edits: vec![], opts, id_spread: 1, headless_band: 0 };
+        let sub = cx.dir(name);
+        std::fs::create_dir_all(sub.join("r")).unwrap();
+        let cx3 = crate::engine::sub_cx(cx, sub.clone());
+        let base = Base::build(&sub, &sc);
+        crate::engine::heartbeat();
+        let trace = base.backup_trace(sc.opts);
+        let writes: Vec<Key> = trace.iter().filter(|l| l.key.verb == V::Write && l.key.path.starts_with("d/")).map(|l| l.key.clone()).collect();
+        ensure!(writes.len() >= 2, "C04/harness/probe-too-small", "{name}: {} block writes", writes.len());
+        for k in writes {
+            for kind in &kinds {
+                crate::engine::heartbeat();
+                check_plan(&base, &sc, &cx3, Plan::FailAtKey { key: k.clone(), kind: *kind }, &mut n).map_err(|mut f| {
+                    f.signature = format!("{}/probe-{name}", f.signature);
+                    f.inner = json!({"key": k, "kind": kind});
+                    f
+                })?;
+                cx.add_evals(1);
+                cx.inner_nontrivial += 1;
+            }
+        }
+        crate::engine::force_remove(&sub);
+    }
     Ok(())
 }
 
